@@ -93,6 +93,21 @@ Theorem C04_no_panic_dispatch : forall sha1 ige_d key data,
 Proof. exact read_dispatch_no_panic. Qed.
 Print Assumptions C04_no_panic_dispatch.
 
+(* History independence: whatever was received before and whatever is received afterwards
+   (honest packets, forged ones, other auth keys), the message produced for a packet is the one
+   [open_client] gives for that packet alone - so everything proved above about single packets
+   holds for every packet of every history, and an accepted message stays what it was.  That the
+   Go code has no state or aliasing that would make it deviate is what the sequence correspondence
+   checks (see the comment at [receive_history] in Crypto/Envelope.v). *)
+Theorem C04_history_independent : forall sha1 ige_d before call after,
+  nth_error (receive_history sha1 ige_d (before ++ call :: after)) (length before)
+  = Some (open_client sha1 ige_d (fst call) (snd call)).
+Proof.
+  intros. unfold receive_history. rewrite map_app, nth_error_app2 by (rewrite map_length; auto).
+  rewrite map_length, Nat.sub_diag. reflexivity.
+Qed.
+Print Assumptions C04_history_independent.
+
 (* "It never produces a message different from the one the key holder sealed."
    FULL STATEMENT (not provable without idealising the hash): for every packet pkt' obtained from
    a sealed packet by flipping bits / truncating / re-keying, open_client key pkt' = Err.
